@@ -93,16 +93,31 @@ def rule_SF(ctx, fm):
 
 def rule_DV(ctx, fm):
     fn = fm.func('_dipole_vector')
+    vf_ = find('_v_ = Field(grid, dtype=float)', fn)
+    ctx.anchor(len(vf_) == 1, 'vector field in _dipole_vector')
+    VF = vf_[0][1]['_v_']
+    # names of weights / indices per axis from the weight definitions
+    W = {}
+    for a, ax in enumerate('xyz'):
+        f = find(f'_r_ = (_xc_[{a}] - _n_[_i_]) / grid.h[{a}][_i_]', fn)
+        ctx.anchor(len(f) == 1, f'weight definition of axis {ax}')
+        e = find(f'_e_ = 1 - {f[0][1]["_r_"]}', fn)
+        ctx.anchor(len(e) == 1, f'complementary weight of axis {ax}')
+        W[a] = dict(r=f[0][1]['_r_'], e=e[0][1]['_e_'], i=f[0][1]['_i_'],
+                    n=f[0][1]['_n_'], xc=f[0][1]['_xc_'])
+    xl = find('_L_ = np.linalg.norm(_hi_ - _lo_) / _len_', fn)
+    ctx.anchor(len(xl) == 1, 'clipped length fraction in _dipole_vector')
+    XL = xl[0][1]['_L_']
     stores = {c: [] for c in ('fx', 'fy', 'fz')}
     for n in ast.walk(fn):
         if isinstance(n, ast.AugAssign) and isinstance(n.target,
                                                        ast.Subscript) and \
                 isinstance(n.target.value, ast.Attribute) and \
                 n.target.value.attr in stores and ast.unparse(
-                    n.target.value.value) == 'vfield' and isinstance(
+                    n.target.value.value) == VF and isinstance(
                         n.op, ast.Add):
             stores[n.target.value.attr].append(n)
-    lower = ['ix', 'iy', 'iz']
+    lower = [W[a]['i'] for a in range(3)]
     rs = [sp.Symbol(f'r{a}') for a in range(3)]
     L = sp.Symbol('x_len')
     for a, comp in enumerate(('fx', 'fy', 'fz')):
@@ -114,7 +129,7 @@ def rule_DV(ctx, fm):
             if t == a:
                 continue
             axes[t] = {'lower': lower[t], 'upper': lower[t] + '+1',
-                       'e': 'e' + 'xyz'[t], 'r': 'r' + 'xyz'[t]}
+                       'e': W[t]['e'], 'r': W[t]['r']}
         combos = pairing_table(ctx, 'C10.DV.pairing', fm, fn, stores[comp],
                                axes, f'_dipole_vector {comp}')
         for st in stores[comp]:
@@ -130,10 +145,10 @@ def rule_DV(ctx, fm):
                   'cell once each', ctx.where(fm, fn))
         total = 0
         for st in stores[comp]:
-            env = {'x_len': L}
+            env = {XL: L}
             for t in range(3):
-                env['r' + 'xyz'[t]] = rs[t]
-                env['e' + 'xyz'[t]] = 1 - rs[t]
+                env[W[t]['r']] = rs[t]
+                env[W[t]['e']] = 1 - rs[t]
             total = total + Lifter(env, {}, fm.rel, strict=True).lift(
                 st.value)
         ctx.check('C10.DV.unity', f'_dipole_vector {comp}: weights sum to '
@@ -143,26 +158,20 @@ def rule_DV(ctx, fm):
                   sample={'component': comp, 'sum': str(sp.simplify(total))})
     ctx.floor('C10.DV.pairing', 27)
     # linear weights: r = (x_c[a] - nodes_a[i_a]) / h_a[i_a], e = 1 - r
-    xc = None
+    xc = W[0]['xc']
     for a, ax in enumerate('xyz'):
-        f = find(f'r{ax} = (_xc_[{a}] - _n_[i{ax}]) / grid.h[{a}][i{ax}]', fn)
-        ok = len(f) == 1 and has(f'e{ax} = 1 - r{ax}', fn)
-        if ok:
-            nd = f[0][1]['_n_']
-            ok = has(f'{nd} = np.round(grid.nodes_{ax}, __)', fn)
-            xc = f[0][1]['_xc_']
+        ok = has(f'{W[a]["n"]} = np.round(grid.nodes_{ax}, __)', fn) and \
+            W[a]['xc'] == xc
         ctx.check('C10.DV.linear', f'_dipole_vector weights axis {ax}', ok,
                   f'weights of axis {ax} are not r=(x_c-node)/h, e=1-r of '
                   'the same axis', ctx.where(fm, fn))
     ok = False
-    if xc:
-        c = find(f'{xc} = (_lo_ + _hi_) / 2.0', fn)
-        if c:
-            lo, hi = c[0][1]['_lo_'], c[0][1]['_hi_']
-            ok = has(f'x_len = np.linalg.norm({hi} - {lo}) / _L_', fn) or \
-                has(f'x_len = np.linalg.norm({lo} - {hi}) / _L_', fn)
-            ok = ok and has(f'{lo} = _p_[0, :] + _al_ * _d_', fn) and \
-                has(f'{hi} = _p_[0, :] + _ar_ * _d_', fn)
+    c = find(f'{xc} = (_lo_ + _hi_) / 2.0', fn)
+    if c:
+        lo, hi = c[0][1]['_lo_'], c[0][1]['_hi_']
+        ok = {xl[0][1]['_hi_'], xl[0][1]['_lo_']} == {lo, hi}
+        ok = ok and has(f'{lo} = _p_[0, :] + _al_ * _d_', fn) and \
+            has(f'{hi} = _p_[0, :] + _ar_ * _d_', fn)
     ctx.check('C10.DV.linear', '_dipole_vector segment centre and length',
               ok, 'clipped segment centre / length fraction changed',
               ctx.where(fm, fn))
@@ -172,7 +181,7 @@ def rule_DV(ctx, fm):
     ctx.anchor(len(loops) == 1, 'normalisation loop in _dipole_vector')
     lp = loops[0]
     lv = ast.unparse(lp.target)
-    ok = has('[vfield.fx, vfield.fy, vfield.fz]', lp.iter) and \
+    ok = has(f'[{VF}.fx, {VF}.fy, {VF}.fz]', lp.iter) and \
         has(f'_s_ = abs({lv}.sum())', lp) and has(f'{lv} /= _s_', lp)
     ctx.check('C10.DV.normalise', '_dipole_vector normalisation guard', ok,
               'the three components are not all re-normalised to unit sum '
@@ -184,8 +193,8 @@ def rule_DV(ctx, fm):
     dname = ext[0][1]['_d_'] if ext else 'dxdydz'
     for a, comp in enumerate(('fx', 'fy', 'fz')):
         sc = [n for n in fn.body if isinstance(n, ast.AugAssign) and
-              ast.unparse(n.target) == f'vfield.{comp}']
-        ok = len(sc) == 1 and has(f'vfield.{comp} *= {dname}[{a}]', sc[0]) \
+              ast.unparse(n.target) == f'{VF}.{comp}']
+        ok = len(sc) == 1 and has(f'{VF}.{comp} *= {dname}[{a}]', sc[0]) \
             and sc[0].lineno > lp.lineno
         ctx.check('C10.DV.scaling', f'_dipole_vector: {comp} *= extent[{a}]',
                   ok, f'{comp} is not scaled by the {"xyz"[a]}-extent of the '
@@ -193,7 +202,7 @@ def rule_DV(ctx, fm):
                   sample={'component': comp})
     # wires: sum over consecutive segments
     seg = find('for _a_, _b_ in zip(_p_[:-1, :], _p_[1:, :]):\n'
-               '    vfield.field += _dipole_vector(grid, '
+               f'    {VF}.field += _dipole_vector(grid, '
                'points=np.r_[[_a_, _b_]], decimals=__, nodes=__).field', fn)
     ctx.check('C10.DV.segments', '_dipole_vector sums consecutive segments',
               len(seg) == 1, 'a wire is not the sum of its consecutive '
